@@ -25,7 +25,18 @@ class TemplateFileSorter(FileSorter):
         self.invert = invert
 
     def __call__(self, files: Iterable[File]) -> Iterable[File]:
-        return sorted(files, key=self._generate_sort_key, reverse=self.invert)
+        files = list(files)
+        try:
+            return sorted(files, key=self._generate_sort_key, reverse=self.invert)
+        except TypeError as comparison_error:
+            # Values evaluated for different files cannot be compared with each other
+            assert self.pattern.source_representation is not None
+            raise TemplateEvaluationError(
+                files[0],
+                self.pattern.source_representation,
+                "(" + self.pattern.process_as_expression(files[0]) + ", )",
+                str(comparison_error),
+            )
 
     def _generate_sort_key(self, file: File) -> Tuple:
         self.log.debug("Rendering sorting value template for '%s'", file)
